@@ -214,23 +214,38 @@ def pub(case):
 LS_SOLVERS = ["PINV", "LSTSQ", "LSTSQ:gelsd", "LSTSQ:gelss", "PINV:herm", "PINV:rtol", "PINV:atol", "LSTSQ:rcond"]
 
 
+# name -> (class, positional args, keyword args): every optional argument alone, in pairs, keyword and positional
+SOLVER_CFG = {
+    "PINV": ("PINV", (), {}),
+    "PINV:herm": ("PINV", (), {"hermitian": True}),
+    "PINV:rtol": ("PINV", (), {"atol": 1e-300, "rtol": 1e-2}),
+    "PINV:atol": ("PINV", (), {"atol": 0.5, "rtol": 0.0}),
+    "PINV:rtol1": ("PINV", (), {"rtol": 1e-2}),                    # exactly one of the two tolerances
+    "PINV:atol1": ("PINV", (), {"atol": 0.5}),
+    "PINV:both": ("PINV", (), {"atol": 0.3, "rtol": 1e-3}),        # rtol != atol, both active
+    "PINV:herm+rtol": ("PINV", (), {"rtol": 1e-2, "hermitian": True}),
+    "PINV:pos": ("PINV", (None, 1e-2, False), {}),                  # positional constructor arguments
+    "LSTSQ": ("LSTSQ", (), {}),
+    "LSTSQ:gelsd": ("LSTSQ", (), {"driver": "gelsd"}),
+    "LSTSQ:gelss": ("LSTSQ", (), {"driver": "gelss"}),
+    "LSTSQ:gelsy": ("LSTSQ", (), {"driver": "gelsy"}),
+    "LSTSQ:gels": ("LSTSQ", (), {"driver": "gels"}),               # full-rank driver (used on full-rank systems only)
+    "LSTSQ:rcond": ("LSTSQ", (), {"rcond": 1e-2, "driver": "gelsd"}),
+    "LSTSQ:rcond1": ("LSTSQ", (), {"rcond": 1e-2}),                # rcond alone (default driver: wrapper stream only)
+    "LSTSQ:pos": ("LSTSQ", (1e-2, "gelss"), {}),
+}
+TRUNC_CUT = {   # documented cut-off of the configured tolerances, as a function of the largest singular value
+    "PINV:rtol": lambda s1: max(1e-300, 1e-2 * s1), "PINV:atol": lambda s1: 0.5, "PINV:rtol1": lambda s1: 1e-2 * s1,
+    "PINV:atol1": lambda s1: 0.5, "PINV:both": lambda s1: max(0.3, 1e-3 * s1), "PINV:herm+rtol": lambda s1: 1e-2 * s1,
+    "PINV:pos": lambda s1: 1e-2 * s1, "LSTSQ:rcond": lambda s1: 1e-2 * s1, "LSTSQ:pos": lambda s1: 1e-2 * s1,
+}
+DEFAULT_CFG = ("PINV", "LSTSQ", "LSTSQ:gelsd", "LSTSQ:gelss", "LSTSQ:gelsy", "LSTSQ:gels", "PINV:herm")
+HERM_CFG = ("PINV:herm", "PINV:herm+rtol")
+
+
 def make_solver(name):
-    s = S()
-    if name == "PINV":
-        return s.PINV()
-    if name == "PINV:herm":
-        return s.PINV(hermitian=True)
-    if name == "PINV:rtol":
-        return s.PINV(atol=1e-300, rtol=1e-2)
-    if name == "PINV:atol":
-        return s.PINV(atol=0.5, rtol=0.0)
-    if name == "LSTSQ":
-        return s.LSTSQ()
-    if name == "LSTSQ:rcond":
-        return s.LSTSQ(rcond=1e-2, driver="gelsd")
-    if name.startswith("LSTSQ:"):
-        return s.LSTSQ(driver=name.split(":")[1])
-    raise ValueError(name)
+    cls, args, kw = SOLVER_CFG[name]
+    return getattr(S(), cls)(*args, **kw)
 
 
 def ls_item(it, m, n, dtype):
@@ -244,10 +259,16 @@ def ls_item(it, m, n, dtype):
         U, _ = torch.linalg.qr(torch.randn(m, m, generator=g, dtype=torch.float64))
         V, _ = torch.linalg.qr(torch.randn(n, n, generator=g, dtype=torch.float64))
         s = torch.logspace(0, -it["cexp"], r, dtype=torch.float64) if r > 1 else torch.ones(1, dtype=torch.float64)
+        if it.get("svs"):      # explicit (relative) singular values: spacing classes around a cut-off
+            sv_ = torch.tensor(it["svs"][:r], dtype=torch.float64)
+            s = torch.cat([sv_, s[len(sv_):] * float(sv_.min()) * 0.5]) if len(sv_) < r else sv_
+        if it.get("sym"):      # symmetric indefinite matrix with the prescribed |eigenvalues|
+            assert m == n
+            sg = torch.where(torch.rand(r, generator=g) < 0.5, -1.0, 1.0).double()
+            V = U * sg
         A = ((U[:, :r] * s) @ V[:, :r].T * (2.0 ** it.get("ascale", 0))).to(dt)
         Ad = A.double()
         if it.get("sym"):
-            assert m == n
             Ad = ((Ad + Ad.T) / 2).to(dt).double()
             A = Ad.to(dt)
         if m >= n:
@@ -328,7 +349,7 @@ def check_ls(ctx: Ctx, case, lines_out=None) -> bool:
         A, b = V.make("A", A, case.get("view")), V.make("b", b, case.get("viewb"))
     A0, b0 = A.clone(), b.clone()
     sol = case.get("_sol") or make_solver(name)
-    default_cfg = name in ("PINV", "LSTSQ", "LSTSQ:gelsd", "LSTSQ:gelss", "PINV:herm")  # others: wrapper stream only
+    default_cfg = name in DEFAULT_CFG  # others: wrapper stream + truncated-SVD law
     try:
         x = sol(A, b)
     except Exception as e:
@@ -394,15 +415,18 @@ def check_ls(ctx: Ctx, case, lines_out=None) -> bool:
                 if d > 64 * eps * (sc + 1e-300):
                     ctx.disagree("ls.wrapper", rep_case(case), f"item {k}: {name} differs from lstsq(A,b,rcond,driver).solution by {d:.3e}")
                     ok = False
-    if name in ("PINV:rtol", "PINV:atol", "LSTSQ:rcond") and lines_out is not None:
+    if name in TRUNC_CUT and lines_out is not None:
         # documented semantics of the tolerance arguments: singular values below the cut-off are treated as zero, i.e. the
         # result is the minimum-norm least-squares solution of the truncated matrix (judged only when no singular value
         # lies within a factor 4 of the cut-off)
         for k, rec in enumerate(recs):
             U, sv, Vh = torch.linalg.svd(rec["A"], full_matrices=True)
             s1 = float(sv[0]) if sv.numel() else 0.0
-            cut = {"PINV:rtol": max(1e-300, 1e-2 * s1), "PINV:atol": 0.5, "LSTSQ:rcond": 1e-2 * s1}[name]
-            if any(cut / 4 <= float(v) <= cut * 4 for v in sv):
+            cut = TRUNC_CUT[name](s1)
+            # only singular values within rounding distance of the cut-off are ambiguous (the spacing classes put values
+            # at cut*(1 +- 1e-3), cut*(1 +- 0.3) on purpose)
+            band = max(1e-9 if dtype == "float64" else 2e-4, 200 * eps * s1 / max(cut, 1e-300))
+            if any(abs(float(v) - cut) <= band * cut for v in sv):
                 ctx.count("ls.trunc.ambiguous")
                 continue
             kk = int((sv > cut).sum())
@@ -1579,13 +1603,17 @@ def pick_dim(rng, hi=40):
         return rng.choice([41, 48, 57, 64])
     if c < 0.25:
         return rng.choice([1, 2, 3])
+    if c < 0.33:
+        return rng.choice([p_ for p_ in (3, 5, 7, 11, 13, 17, 31, 37) if p_ <= hi])
     if c < 0.7:
         return rng.randint(1, 12)
     return rng.randint(13, hi)
 
 
-def pick_batch(rng):
-    return rng.choice([[], [], [1], [3], [2, 2]])
+def pick_batch(rng, dims=()):
+    """batch shapes incl. the special sizes: 1, 3 in either position, primes, and sizes equal to a matrix dimension"""
+    special = [[d] for d in dims if 1 <= d <= 6]
+    return rng.choice([[], [], [], [1], [3], [2, 2], [3, 1], [1, 3], [5], [7]] + special + special)
 
 
 def gen_ls_cases(ctx: Ctx, count):
@@ -1593,21 +1621,24 @@ def gen_ls_cases(ctx: Ctx, count):
     cases = []
     for i in range(count):
         dtype = rng.choice(["float64", "float64", "float64", "float32"])
-        batch = pick_batch(rng)
-        nb = math.prod(batch) if batch else 1
-        solver = rng.choice(["PINV", "PINV", "PINV", "LSTSQ", "LSTSQ", "LSTSQ", "LSTSQ:gelsd", "LSTSQ:gelss", "PINV:herm", "PINV:rtol",
-                             "PINV:atol", "LSTSQ:rcond"])
+        solver = rng.choice(["PINV", "PINV", "PINV", "LSTSQ", "LSTSQ", "LSTSQ", "LSTSQ:gelsd", "LSTSQ:gelss", "LSTSQ:gelsy", "LSTSQ:gels",
+                             "PINV:herm", "PINV:rtol", "PINV:atol", "PINV:rtol1", "PINV:atol1", "PINV:both", "PINV:herm+rtol",
+                             "PINV:pos", "LSTSQ:rcond", "LSTSQ:rcond1", "LSTSQ:pos"])
         big = rng.random() < (0.15 if ctx.quick else 0.3)
         m = pick_dim(rng, 40 if big else 14)
         n = pick_dim(rng, 40 if big else 14)
-        if solver == "PINV:herm":
+        if solver in HERM_CFG:
             n = m
+        batch = pick_batch(rng, (m, n))
+        nb = math.prod(batch) if batch else 1
         items = []
         for _ in range(nb):
             c = rng.random()
             cmax = 8 if dtype == "float64" else 3
-            if solver == "PINV:herm":
+            if solver in HERM_CFG:
                 it = {"kind": "float", "cexp": rng.choice([0, 1, 2, 4, 6, cmax][:4 if dtype == "float32" else 6]), "sym": True}
+            elif solver == "LSTSQ:gels":      # the full-rank driver: full-rank systems only
+                it = {"kind": "float", "cexp": rng.choice([0, 1, 2, 3] + ([5, 8] if dtype == "float64" else []))}
             elif solver.startswith("LSTSQ") and m < n and rng.random() < 0.5:
                 it = {"kind": "float", "cexp": rng.choice([0, 1, 3, cmax])}
             elif c < 0.4:
@@ -1618,11 +1649,20 @@ def gen_ls_cases(ctx: Ctx, count):
             else:
                 r = rng.choice([0, 1, max(min(m, n) - 1, 0), rng.randint(0, min(m, n))])
                 it = {"kind": "int", "r": r, "cexp2": rng.choice([0, 0, 4, 10, 20] if dtype == "float64" else [0, 2])}
+            if solver in TRUNC_CUT and rng.random() < 0.6:
+                # spacing classes: singular values just below / just above / clearly beside the solver's cut-off, either sign
+                rel = TRUNC_CUT[solver](1.0)
+                d1, d2 = rng.choice([1e-3, 3e-2, 0.3]), rng.choice([1e-3, 3e-2, 0.3])
+                svs = [1.0, rng.choice([0.9, 0.7]), rel * (1 + d1), rel * (1 - d2), rel * rng.choice([0.5, 0.1])]
+                rng.shuffle(svs)
+                it = {"kind": "float", "cexp": 0, "ascale": 0, "svs": sorted(svs, reverse=True)}
+                if solver in HERM_CFG:
+                    it["sym"] = True
             it["b"] = rng.choice(["generic", "generic", "consistent", "zero"])
             it["bscale"] = rng.choice([0, 0, 0, -30, 30] + ([-100, 100] if dtype == "float64" else []))
             it["seed"] = rng.randrange(1 << 30)
             items.append(it)
-        if nb >= 3 and solver != "PINV:herm" and rng.random() < 0.35:
+        if nb >= 3 and solver not in HERM_CFG and solver != "LSTSQ:gels" and rng.random() < 0.35:
             # mixed-regime batch: zero matrix, worst conditioning + extreme scale, rank-deficient graded, ordinary — side by side
             cmax = 8 if dtype == "float64" else 3
             items[0].update({"kind": "int", "r": 0, "cexp2": 0})
@@ -1637,7 +1677,7 @@ def gen_ls_cases(ctx: Ctx, count):
             cases[-1]["alias"] = True
         # non-finite entries: only LSTSQ.forward promises a loud failure (its NaN assertion); PINV/pinv has no such
         # clause and matrices with infinite entries are outside the property's quantifier (see notes/C10.md)
-        if rng.random() < 0.12 and solver in ("LSTSQ", "LSTSQ:gelsd", "LSTSQ:gelss"):
+        if rng.random() < 0.12 and solver in ("LSTSQ", "LSTSQ:gelsd", "LSTSQ:gelss", "LSTSQ:gelsy"):
             cases[-1]["malformed"] = rng.choice(["inf", "inf", "-inf"])
             for it in items:
                 it.update({"kind": "float", "cexp": 0, "ascale": 0, "b": "generic", "bscale": 0})
@@ -1676,9 +1716,9 @@ def gen_chol_cases(ctx: Ctx, count):
     bad = ["indef", "indef", "singular", "negdef", "zero", "badlast", "badfirst", "badmid"]
     for i in range(count):
         dtype = rng.choice(["float64", "float64", "float32"])
-        batch = pick_batch(rng)
-        nb = math.prod(batch) if batch else 1
         n = pick_dim(rng, 40 if rng.random() < 0.2 else 14)
+        batch = pick_batch(rng, (n,))
+        nb = math.prod(batch) if batch else 1
         mode = rng.choice(["good", "good", "bad", "onebad"])
         items = []
         for k in range(nb):
@@ -1687,7 +1727,7 @@ def gen_chol_cases(ctx: Ctx, count):
         if mode == "onebad":
             items[rng.randrange(nb)] = rng.choice(bad)
         its = []
-        nrhs = rng.choice([1, 1, 2])
+        nrhs = rng.choice([1, 1, 2, n if n <= 6 else 3])
         for kind in items:
             it = {"kind": kind, "seed": rng.randrange(1 << 30), "nrhs": nrhs}
             if kind in ("spd", "indef", "negdef"):
